@@ -156,8 +156,14 @@ impl Context {
         let mut changed;
         loop {
             changed = false;
-            for (i, set) in self.regex_sets.iter().enumerate() {
-                for idx in set.matches(s).into_iter() {
+            // Look for the macros in the line as it is now: an expansion may have uncovered further uses
+            let matches: Vec<Vec<usize>> = self
+                .regex_sets
+                .iter()
+                .map(|set| set.matches(&res).into_iter().collect())
+                .collect();
+            for (i, set_matches) in matches.iter().enumerate() {
+                for &idx in set_matches {
                     let x = self.regexes[i][idx]
                         .0
                         .replace_all(&res, &self.regexes[i][idx].1);
